@@ -6,4 +6,6 @@ Extraction "model_C17.ml" current_behaviour code_today repaired repaired_except_
   data_slice slice_read position_and_extent_in_data mk_view view_read view_write view_extent id_array gen_from
   spec_slice spec_domain spec_ids spec_req spec_in_data spec_mk_view spec_view_read spec_view_write inside_window
   real_count real_offset fis_finite fmul prod a_cells a_shape
-  repo_e3eed7c view_get_value view_set_value arr_get_value arr_set_value spec_get_value spec_set_value spec_value_count.
+  repo_e3eed7c view_get_value view_set_value arr_get_value arr_set_value spec_get_value spec_set_value spec_value_count
+  repo_dc7d826 view_tgetall view_tget3 view_tgetat view_tsetall view_tset view_set_extent route_resize route_shape route_buf
+  spec_tgetall spec_tget3 spec_pos_in_data position_in_data position_to_index_pairs position_to_index_scalar data_slice3 dim_unit.
